@@ -77,6 +77,8 @@ fn judge(spec: &JobSpec, r: &JobResult, ref_ok: bool) -> (Option<(String, String
                 (Some((format!("hang(paths)@{}", site), format!("the extension algorithm built more than {} paths ({}) while the stylesheet itself had executed fewer than 10^5 statements: combinatorial blow-up, the compilation would run for minutes and exhaust memory", crate::job::PATHS_FUEL, site))), "violation")
             } else if kind == "fs-retry" {
                 (Some(("hang(fs-retry)".into(), "a read that fails every time was retried more than 10 000 times: a retry loop that never gives up".into())), "violation")
+            } else if kind == "fs-ops" && !corrupts && ref_ok {
+                (Some(("hang(fs-ops)".into(), format!("more than {} Fs operations in one compilation of intact text whose fault-free run made {}: a file search that does not end", crate::simfs::FS_OPS_FUEL, "a few hundred at most"))), "violation")
             } else if kind == "depth" {
                 // only ever armed for corrupted text
                 (None, "inconclusive")
@@ -142,7 +144,7 @@ impl<'a> UnitRun<'a> {
                 self.res.bump(&format!("fired.{}", f.kind()), 1);
                 let at = match f {
                     Fault::ReadErr { at, .. } | Fault::CanonErr { at } | Fault::Vanish { at, .. } | Fault::Stall { at, .. } | Fault::Appear { at, .. } => *at as u64,
-                    Fault::Content { .. } | Fault::ReadErrAlways { .. } => u64::MAX,
+                    Fault::Content { .. } | Fault::ReadErrAlways { .. } | Fault::StatLies { .. } | Fault::CanonOdd { .. } => u64::MAX,
                 };
                 if at != u64::MAX {
                     self.res.set_add("op_fault_pairs", mix(at, mix_str(1, &f.kind())));
@@ -346,6 +348,22 @@ impl FsFault {
             for f in content_faults(&mut rng, p, b, full, other.as_bytes()) {
                 plans.push(vec![f]);
             }
+        }
+        // an `Fs` that is not a POSIX disk: existence tests and canonicalize answer unusually but
+        // legally (a flat object store where every prefix is a directory, a store that says yes
+        // to every is_file and lets the read decide, canonical names that are relative, empty,
+        // not UTF-8, or spelled differently on every call)
+        for m in ["dir_always", "file_always", "dir_is_file"] {
+            plans.push(vec![Fault::StatLies { mode: m.into() }]);
+        }
+        for m in ["relative", "empty", "fresh", "nonutf8"] {
+            plans.push(vec![Fault::CanonOdd { mode: m.into() }]);
+        }
+        plans.push(vec![Fault::StatLies { mode: "dir_always".into() }, Fault::CanonOdd { mode: "fresh".into() }]);
+        // the directory probes of the search are only reached by a load that finds nothing next to
+        // the importing file: the same lies with one loaded file gone
+        for p in read_paths.iter().skip(1) {
+            plans.push(vec![Fault::StatLies { mode: "dir_always".into() }, Fault::Vanish { at: 0, target: Some(p.clone()) }]);
         }
         // a 10 % tail of two-fault runs
         let n1 = plans.len();
